@@ -1,0 +1,182 @@
+//go:build verif
+
+package kgo
+
+import (
+	"context"
+	"sync"
+	"time"
+)
+
+// This file exists only in builds with the `verif` tag. It lets an external
+// verification harness run the producer's real batching, request building and
+// serialization path (bufferRecord, createReq/tryAddBatch, AppendRequest) for
+// a chosen produce version without a broker, and read back the size
+// accounting. Nothing here changes client behavior.
+
+// VerifC18Part is one partition's worth of records to buffer, in order.
+type VerifC18Part struct {
+	Topic     string
+	TopicID   [16]byte
+	Partition int32
+	Seq       int32 // the partition's next sequence number
+	Records   []*Record
+}
+
+// VerifC18Batch is the accounting state of one buffered batch.
+type VerifC18Batch struct {
+	NumRecords        int
+	WireLength        int32
+	V1WireLength      int32
+	FirstTimestamp    int64
+	MaxTimestampDelta int64
+}
+
+// VerifC18Req is one produce request as created and serialized.
+type VerifC18Req struct {
+	Bytes      []byte // what would be written to the connection
+	Version    int16
+	Accounted  int32 // produceRequest.wireLength after the last tryAddBatch
+	Limit      int32 // produceRequest.wireLengthLimit
+	NumBatches int
+}
+
+// VerifC18Out is everything observable about one run.
+type VerifC18Out struct {
+	MaxBatchBytes []int32           // per part: recBuf.maxRecordBatchBytes
+	RecBatch      [][]int           // per part, per record: index of the batch the record landed in, -1 = not buffered
+	RecErr        [][]string        // per part, per record: the promise error of a record that was not buffered
+	Batches       [][]VerifC18Batch // per part
+	Reqs          []VerifC18Req
+	BaseLength    int32 // baseProduceRequestLength
+}
+
+// VerifC18Run buffers the records of every part through recBuf.bufferRecord on
+// a private sink whose known produce version is sinkVersion (-1 = not yet
+// known), then repeatedly calls createReq and serializes every request at
+// reqVersion (capped by the request's own MaxVersion, as the broker write path
+// does) until nothing is left to drain. tx890p2 is the producer's KIP-890 part 2
+// flag (transactional produce v12+). The client should be configured with
+// ManualFlushing so that nothing is drained in the background.
+func VerifC18Run(cl *Client, sinkVersion int32, reqVersion int16, tx890p2 bool, producerID int64, producerEpoch int16, corrID int32, parts []VerifC18Part) VerifC18Out {
+	var out VerifC18Out
+	cl.producer.tx890p2.Store(tx890p2)
+	out.BaseLength = cl.baseProduceRequestLength()
+	s := cl.newSink(1)
+	s.produceVersion.Store(sinkVersion)
+
+	var (
+		mu      sync.Mutex
+		wg      sync.WaitGroup
+		recBufs []*recBuf
+	)
+	for pi, p := range parts {
+		// as in metadata.go newTopicPartition
+		rb := &recBuf{
+			cl:                  cl,
+			topic:               p.Topic,
+			topicID:             p.TopicID,
+			partition:           p.Partition,
+			maxRecordBatchBytes: cl.maxRecordBatchBytesForTopic(p.Topic),
+			recBufsIdx:          -1,
+			sink:                s,
+			lastAckedOffset:     -1,
+		}
+		rb.lingerFn = rb.unlingerAndManuallyDrain
+		rb.seq = p.Seq
+		rb.batch0Seq = p.Seq
+		s.addRecBuf(rb)
+		recBufs = append(recBufs, rb)
+		out.MaxBatchBytes = append(out.MaxBatchBytes, rb.maxRecordBatchBytes)
+		out.RecBatch = append(out.RecBatch, make([]int, len(p.Records)))
+		out.RecErr = append(out.RecErr, make([]string, len(p.Records)))
+
+		for ri, r := range p.Records {
+			r.Topic = p.Topic
+			r.Partition = p.Partition
+			if r.Context == nil {
+				r.Context = context.Background()
+			}
+			// as in producer.produce: the record counts as buffered before it is partitioned
+			cl.producer.mu.Lock()
+			cl.producer.bufferedRecords++
+			cl.producer.bufferedBytes += r.userSize()
+			cl.producer.mu.Unlock()
+			pi, ri := pi, ri
+			wg.Add(1)
+			var once sync.Once
+			pr := promisedRec{
+				ctx: context.Background(),
+				promise: func(_ *Record, err error) {
+					once.Do(func() {
+						mu.Lock()
+						if err != nil {
+							out.RecErr[pi][ri] = err.Error()
+						}
+						mu.Unlock()
+						wg.Done()
+					})
+				},
+				Record: r,
+			}
+			rb.bufferRecord(pr, false)
+			rb.mu.Lock()
+			idx := -1
+			if n := len(rb.batches); n > 0 {
+				last := rb.batches[n-1]
+				if m := len(last.records); m > 0 && last.records[m-1].Record == r {
+					idx = n - 1
+				}
+			}
+			rb.mu.Unlock()
+			out.RecBatch[pi][ri] = idx
+			if idx >= 0 {
+				once.Do(wg.Done) // buffered: the promise never runs in this harness
+			}
+		}
+	}
+	// failed records are promised asynchronously
+	done := make(chan struct{})
+	go func() { wg.Wait(); close(done) }()
+	select {
+	case <-done:
+	case <-time.After(10 * time.Second):
+	}
+
+	for _, rb := range recBufs {
+		rb.mu.Lock()
+		var bs []VerifC18Batch
+		for _, b := range rb.batches {
+			bs = append(bs, VerifC18Batch{len(b.records), b.wireLength, b.v1wireLength, b.firstTimestamp, b.maxTimestampDelta})
+		}
+		rb.mu.Unlock()
+		out.Batches = append(out.Batches, bs)
+	}
+
+	for {
+		req, _, _ := s.createReq(producerID, producerEpoch)
+		n := 0
+		for _, ps := range req.batches.bs {
+			n += len(ps)
+		}
+		if n == 0 {
+			break
+		}
+		v := reqVersion
+		if v > req.MaxVersion() {
+			v = req.MaxVersion()
+		}
+		req.SetVersion(v)
+		buf := cl.reqFormatter.AppendRequest(nil, req, corrID)
+		out.Reqs = append(out.Reqs, VerifC18Req{Bytes: buf, Version: v, Accounted: req.wireLength, Limit: req.wireLengthLimit, NumBatches: n})
+		// pretend the request was answered: the partitions may be drained again
+		for _, rb := range recBufs {
+			rb.mu.Lock()
+			rb.inflight = 0
+			rb.mu.Unlock()
+		}
+	}
+	mu.Lock()
+	defer mu.Unlock()
+	return out
+}
